@@ -89,6 +89,12 @@ def gen_access(ctx):
                 acc += [dict(k='mode', mode='r'), dict(k='enter', mode='r+'), dict(k='set', index=0, value=dict(kind='scalar', value=4)),
                         dict(k='shrink', n=1), dict(k='set', index=-1, value=dict(kind='scalar', value=6)),
                         dict(k='get', index=full), dict(k='exit'), dict(k='get', index=full), dict(k='mode', mode='r+')]
+                # the mode is changed INSIDE a context and the length changes after that: the new mode governs
+                # the renewed map
+                acc += [dict(k='mode', mode='r'), dict(k='enter', mode=None), dict(k='mode', mode='r+'), dict(k='grow', n=1),
+                        dict(k='set', index=-1, value=dict(kind='scalar', value=5)), dict(k='get', index=full),
+                        dict(k='shrink', n=1), dict(k='set', index=0, value=dict(kind='scalar', value=8)),
+                        dict(k='exit'), dict(k='get', index=full)]
             for _ in range(14 if ctx.quick else 30):
                 x = r.random()
                 if x < 0.08 and not inctx:
